@@ -96,6 +96,19 @@ Definition expected_source (d : dset) : psrc :=
   | DPadPotential => SrcPadPotential
   end.
 
+(** shape of the buffer a source hands to [_appendData], from the extents of the PhaseSpace members
+    (a sub-array [A[i]] of a row-major array has the remaining extents) *)
+Definition src_extents (s : psrc) (e_data e_proj e_mom e_rms e_fill : list Z) : option (list Z) :=
+  match s with
+  | SrcTime => Some []
+  | SrcData => Some e_data
+  | SrcProj _ => Some (tl e_proj)
+  | SrcRms _ => Some (tl e_rms)
+  | SrcMoment _ _ => Some (tl (tl e_mom))
+  | SrcFilling => Some e_fill
+  | _ => None                    (* not a PhaseSpace member *)
+  end.
+
 Definition psrc_eqb (a b : psrc) : bool :=
   match a, b with
   | SrcTime, SrcTime | SrcData, SrcData | SrcFilling, SrcFilling | SrcCsrRows, SrcCsrRows
